@@ -226,6 +226,10 @@ def _save_file(
 
         # Save each shard, loading only necessary tensor data
         all_filenames = []
+        # Shards are written next to their destination and moved into place only after every
+        # shard has been written: when a loaded model is re-saved in place, its external tensors
+        # still read from the old shard files while the new ones are produced.
+        pending_renames: list[tuple[str, str]] = []
         weight_map: dict[str, str] = {}  # Maps tensor name to shard filename
         current_offset = 0
         current_index = 0
@@ -267,8 +271,10 @@ def _save_file(
                 current_offset += tensor.nbytes
                 current_index += 1
 
+            temporary_path = shard_path + ".tmp"
+            pending_renames.append((temporary_path, shard_path))
             if not hasattr(safetensors, "TensorSpec"):
-                safetensors.serialize_file(shard_dict, shard_path)
+                safetensors.serialize_file(shard_dict, temporary_path)
             else:
                 # Keep strong references alive until serialize_file returns because
                 # TensorSpec stores raw data pointers.
@@ -288,7 +294,10 @@ def _save_file(
                         data_ptr=ctypes.addressof(data_view),
                         data_len=len(data),
                     )
-                safetensors.serialize_file(tensor_specs, shard_path)
+                safetensors.serialize_file(tensor_specs, temporary_path)
+
+        for temporary_path, shard_path in pending_renames:
+            os.replace(temporary_path, shard_path)
 
         # Save index file if sharding occurred
         if total_shards > 1:
